@@ -510,6 +510,22 @@ fn known_findings_c05(r: &mut PropResult, cx: &Cx) {
             }
         }
     }
+    // F13: one stack frame (several, in fact) per nesting level of a recursive declaration and no depth limit: input
+    // nested deeper than the thread's stack allows ends the process. In a child process of its own.
+    if let Ok(exe) = std::env::current_exe() {
+        if let Ok(out) = std::process::Command::new(exe).env("VCHECK_F13_WITNESS", "1").output() {
+            let err = String::from_utf8_lossy(&out.stderr).to_string();
+            let said = String::from_utf8_lossy(&out.stdout).to_string();
+            if !out.status.success() && err.contains("overflowed its stack") {
+                r.lines.push(format!("KNOWN-FINDING: property=C05 F13 RecList {{ v: u8, next: Option<Box<RecList>> }} decoded from 600 003 bytes nested 200 000 deep on a 2 MiB stack ends the process (stack overflow; profile {}): recursion depth follows the input, without a limit", crate::PROFILE));
+                *r.acc.known.entry("F13".into()).or_insert(0) += 1;
+            } else if !out.status.success() {
+                r.acc.violation(format!("the F13 witness ends the process in another way than F13 describes: {:?} {}", out.status, err.chars().take(300).collect::<String>()), json!({"special": "F13 witness"}));
+            } else if !said.contains("survived") {
+                r.acc.violation(format!("F13 witness child said {said:?}"), json!({"special": "F13 witness"}));
+            }
+        }
+    }
     // F12: Vec<()> with a large non-negative count iterates count times without consuming input. Witness: a count
     // large enough to be measurable but harmless (2^22 iterations).
     let mut bytes = Vec::new();
